@@ -49,13 +49,39 @@ def creds(version):
     return V1("public") if version == "v1" else V2C("public")
 
 
+DISCO_PERTURB = ("echo", "msgid+1", "msgid-1", "msgid-foreign")
+
+
 def make_run(opname, version):
     op = OPS[opname]
+    v3 = version.startswith("v3")
 
     def run(ctx):
         CLOCK.reset()
-        ag = ragent.Agent(DB)
+        world.reset_plugins()
+        if v3:
+            _, level, method = version.split(":")
+            client, sender, ag = world.make_v3(DB, level, method)
+        else:
+            ag = ragent.Agent(DB)
         exchanges = []
+        disco = []
+
+        def mhook(agent, req, fields):
+            # only the discovery reply's message id is perturbed
+            if req["usm"]["engine_id"] != b"":
+                return fields
+            k = ctx.choose(len(DISCO_PERTURB), "disco")
+            kind = DISCO_PERTURB[k]
+            fields = dict(fields)
+            if kind == "msgid+1":
+                fields["msg_id"] += 1
+            elif kind == "msgid-1":
+                fields["msg_id"] -= 1
+            elif kind == "msgid-foreign":
+                fields["msg_id"] = 424242
+            disco.append({"sent_msg_id": req["msg_id"], "resp_msg_id": fields["msg_id"], "kind": kind})
+            return fields
 
         def on_read(clk):
             if ctx.choose(2, "clock", free=True):
@@ -63,7 +89,7 @@ def make_run(opname, version):
 
         def hook(agent, req, resp):
             sent_id = req["request_id"]
-            menu = PERTURB
+            menu = V3_PERTURB if v3 else PERTURB
             k = ctx.choose(len(menu), "resp")
             kind = menu[k]
             resp = dict(resp)
@@ -97,8 +123,11 @@ def make_run(opname, version):
             return resp
 
         ag.response_hook = hook
-        client, sender = world.make_client(creds(version), ag.handle)
-        sender.limit = 12
+        if v3:
+            ag.msg_hook = mhook
+        else:
+            client, sender = world.make_client(creds(version), ag.handle)
+        sender.limit = 14
         CLOCK.on_read = on_read
         try:
             result, exc = ops.run_op(client, op)
@@ -116,7 +145,16 @@ def make_run(opname, version):
                 bad = (i, "id")
                 break
         ename = ops.exc_sig(exc)
-        facts = {"op": opname, "version": version, "exchanges": exchanges, "exception": ename}
+        facts = {"op": opname, "version": version, "exchanges": exchanges, "exception": ename, "discovery": disco}
+        world.v3_auth_facts(facts, exc, ag)
+        bad_disco = next((d for d in disco if d["resp_msg_id"] != d["sent_msg_id"]), None)
+        if bad_disco is not None:
+            if ename != "InvalidResponseId":
+                violations.append({"kind": "foreign-discovery-message-id-not-refused", "detail": {**facts, "result": result}, "facts": facts})
+            if len(ag.log) > 1:
+                violations.append({"kind": "request-sent-after-foreign-discovery-reply", "detail": facts, "facts": facts})
+            obs = (ename, None, len(exchanges), False)
+            return obs, violations
         if bad is None:
             if exc is not None:
                 violations.append(
@@ -148,7 +186,8 @@ def make_run(opname, version):
 
 def shards(tier):
     out = []
-    for version in ("v2c", "v1"):
+    v3s = ["v3:authNoPriv:md5"] if tier == "quick" else ["v3:noAuthNoPriv:md5", "v3:authNoPriv:md5", "v3:authPriv:sha1"]
+    for version in ["v2c", "v1"] + v3s:
         for opname in OPS:
             if version == "v1" and opname in NO_V1:
                 continue
@@ -201,7 +240,7 @@ def replay(case):
 def meta(tier):
     return {
         "level": "model_checking",
-        "rule": "choice tree per (operation, version): free clock-advance choice after every clock read x one response perturbation per response (12 alternatives, deviation bound %d); an execution is non-trivial when at least one non-default choice was taken; every execution is a run of the real client against the reference agent"
+        "rule": "choice tree per (operation, version): free clock-advance choice after every clock read x one response perturbation per response (12 alternatives; 8 under SNMPv3 plus 4 alternatives for the message id of the discovery reply; deviation bound %d); an execution is non-trivial when at least one non-default choice was taken; every execution is a run of the real client against the reference agent"
         % (1 if tier == "quick" else 2),
         "exhaustive": True,
         "bounds": {"response_perturbations": 1 if tier == "quick" else 2, "clock_advances": "unbounded", "request_horizon": 12},
